@@ -12,3 +12,6 @@ func SetYield(f func(site int)) {}
 
 // SetMapOrder is a no-op in the plain build.
 func SetMapOrder(f func(site, n int) []int) {}
+
+// SetLock is a no-op in the plain build.
+func SetLock(f func(delta int)) {}
